@@ -49,29 +49,41 @@ def unlabelledCycle (d : List Quad) : Bool :=
   let ps := detectCycles (buildProfiles d)
   ps.any (fun e => !e.2.bad && backToSelf ps e.1 (ps.length + 1) e.1)
 
+/-- `ttl~` / `trig~`: the same serializer through its other entry points (streaming source, borrowed prefix map);
+`gtrig`: generalized RDF through the pretty TriG writer; the model is the same function -/
+def baseFmt (fmt : String) : String :=
+  if fmt == "ttl~" then "ttl" else if fmt == "trig~" || fmt == "gtrig" then "trig" else fmt
+
 def handle (line : String) : String :=
   match fields line with
   | "ser" :: fmt :: pretty :: ind :: pm :: rest =>
     match charsOfHex ind, parsePm pm, parseQuads (rest.length + 1) rest with
     | some ind, some pm, some quads =>
+      let fmt := baseFmt fmt
       if fmt != "ttl" && fmt != "trig" then "bad-op"
       else if fmt == "ttl" && quads.any (fun q => q.g.isSome) then "bad-op"
-      else if pretty != "1" then reply [kvN "n" quads.length, kv "mode" "stream"]
       else
-        let cfg : Cfg := ⟨pm, ind⟩
-        let d := mkDataset quads
-        let lab := buildLabelled d
-        let sts0 := buildSubjectTypes d lab
-        match prettify cfg d with
-        | .diverges => reply [kvN "n" quads.length, kv "diverges" "1", kvB "unlabelled_cycle" (unlabelledCycle d)]
-        | .done w =>
-          let undone := (w.sts.filter (fun e => e.st != .done)).length
-          let mr := match buildLists d sts0 with
-            | some (_, sts) => multiRest d sts0 sts
-            | none => 0
-          reply ([kvN "n" quads.length, kv "out" (hexOfChars w.out), kvN "undone" undone, kvN "lists_left" w.lists.length,
-                  kvB "unlabelled_cycle" (unlabelledCycle d), kvN "multi_rest" mr,
-                  kvB "fault" w.fault, kvN "bare_bad" w.ghostBare, kvN "nil_bad" w.ghostNil])
+        -- what the property demands of the configuration: an indentation made of Turtle white space is accepted
+        let demand := if ind.all isTurtleWs then [kv "o.cfg" "ok"] else []
+        -- ghost: the indentation contains a character that does not separate Turtle tokens
+        let indentBad := kvB "indent_bad" (!ind.all isTurtleWs)
+        if !indentAccepted ind then reply ([kvN "n" quads.length, kv "cfg" "rejected"] ++ demand)
+        else if pretty != "1" then reply ([kvN "n" quads.length, kv "cfg" "ok", kv "mode" "stream"] ++ demand)
+        else
+          let cfg : Cfg := ⟨pm, ind⟩
+          let d := mkDataset quads
+          let lab := buildLabelled d
+          let sts0 := buildSubjectTypes d lab
+          match prettify cfg d with
+          | .diverges => reply ([kvN "n" quads.length, kv "cfg" "ok", kv "diverges" "1", kvB "unlabelled_cycle" (unlabelledCycle d)] ++ demand)
+          | .done w =>
+            let undone := (w.sts.filter (fun e => e.st != .done)).length
+            let mr := match buildLists d sts0 with
+              | some (_, sts) => multiRest d sts0 sts
+              | none => 0
+            reply ([kvN "n" quads.length, kv "cfg" "ok", kv "out" (hexOfChars w.out), kvN "undone" undone, kvN "lists_left" w.lists.length,
+                    kvB "unlabelled_cycle" (unlabelledCycle d), kvN "multi_rest" mr,
+                    kvB "fault" w.fault, kvN "bare_bad" w.ghostBare, kvN "nil_bad" w.ghostNil, indentBad] ++ demand)
     | _, _, _ => "bad-hex"
   | "lit" :: rest =>
     match Term.parseAll rest with
